@@ -146,3 +146,19 @@ Definition defaults_closed (W : schema) : bool :=
                                           end) fs
                     | _ => true
                     end) W.
+
+(* field ids are pairwise distinct in every struct of the tree (what every writer produces: one wire field per declared
+   field).  A repeated id is legal on the wire -- readers keep the LAST occurrence -- but the earlier occurrences are then
+   lost by any decode / re-encode, with or without retention. *)
+Fixpoint ids_distinct (v : tval) : bool :=
+  match v with
+  | VStruct fs =>
+      nodup_ids (map fst fs) &&
+      (fix go (fs : list (Z * tval)) : bool := match fs with [] => true | (_, x) :: r => ids_distinct x && go r end) fs
+  | VList _ l | VSet _ l =>
+      (fix go (l : list tval) : bool := match l with [] => true | x :: r => ids_distinct x && go r end) l
+  | VMap _ _ l =>
+      (fix go (l : list (tval * tval)) : bool :=
+         match l with [] => true | (a, b) :: r => ids_distinct a && ids_distinct b && go r end) l
+  | _ => true
+  end.
